@@ -28,8 +28,7 @@ import lib_convert as L
 
 PROP = "C33"
 VOCAB = ("TypeError", "ValueError", "OverflowError")
-GROUPS = {"quick": ["q_c", "q_cppa", "q_cppb", "q_cppc", "q_u8", "q_ascii"],
-          "thorough": ["t_c", "t_cppa", "t_cppb", "t_cppc", "t_u8", "t_ascii", "t_xc", "t_xcpp", "t_xu8", "t_xascii"]}
+GROUPS = {"quick": ["q_a", "q_b"], "thorough": ["t_a", "t_b", "t_c", "t_d"]}
 ACTIONS = ("PickType", "PickGood", "InjectTop", "InjectNested", "Accept", "Reject", "AcceptDev", "RejectDev")
 ROOT_CAUSES = ("float-trunc", "map-items-attr", "array-len-indexerror", "struct-extra-key", "chararray-overread")
 
@@ -66,16 +65,15 @@ def classify(case, obs):
 
 def run_tlc(tier, cfgs):
     res = {}
-    with concurrent.futures.ThreadPoolExecutor(max_workers=3 if tier == "quick" else 4) as ex:
-        futs = {c: ex.submit(core.tlc, "Convert", "Convert_" + c, 3 if tier == "quick" else 4, None,
-                             900 if tier == "quick" else 3000) for c in cfgs}
+    with concurrent.futures.ThreadPoolExecutor(max_workers=2) as ex:
+        futs = {c: ex.submit(core.tlc, "Convert", "Convert_" + c, 4, None, 900 if tier == "quick" else 3000) for c in cfgs}
         for c, f in futs.items():
             res[c] = f.result()
     return res
 
 
 def build_modules(types, jobs):
-    mods = L.plan_modules(types)
+    mods = L.plan_modules(types, chunk=7)
     specs = []
     for name, ts, directives, cplus in mods:
         src, cpp = L.render_module(ts)
@@ -97,10 +95,12 @@ def run(tier, seed):
         core.die("Convert published only %d types" % len(types))
     cov["tlc"].append(dict(rt.summary(), config="types"))
     with concurrent.futures.ThreadPoolExecutor(max_workers=2) as ex:
-        fb = ex.submit(build_modules, list(types.values()), 4 if tier == "quick" else 6)
+        fb = ex.submit(build_modules, list(types.values()), int(os.environ.get("VERIF_C33_JOBS", "8")))
         ft = ex.submit(run_tlc, tier, GROUPS[tier])
-        mods, builds = fb.result()
         tl = ft.result()
+        t_tlc = time.time() - t0
+        mods, builds = fb.result()
+        t_build = time.time() - t0
 
     cases = []
     for c, r in tl.items():
@@ -207,6 +207,7 @@ def run(tier, seed):
                     "elem": T["a"][0]["t"] if T["a"] else ""}
             rep.disagree(desc, oc, {"type": T, "val": c["val"], "python": repr_val(c["val"]), "fault": c["fault"], "want": c["want"],
                                     "model_prediction": c["pred"], "got": obs, "call": "rt_%s" % c["ty"]})
+    t_replay = time.time() - t0
     if self_n < 50 or self_ok != self_n:
         core.die("binding self-test failed: %d of %d corrupted expectations rejected" % (self_ok, self_n))
 
@@ -222,7 +223,9 @@ def run(tier, seed):
                 "sits inside a container",
         "types": len(types), "modules": [m[0] for m in mods], "cases_by_kind": dict(kinds), "model_actions": dict(act),
         "model_root_causes": dict(rcs), "cases_by_fault": dict(collections.Counter(c["fault"]["fk"] for c in cases)),
-        "binding_selftest": {"corrupted": self_n, "rejected": self_ok}, "replay_stats": dict(stats), "samples": samples,
+        "binding_selftest": {"corrupted": self_n, "rejected": self_ok},
+        "phase_wall_s": {"types_run": round(rt.wall, 1), "model_checking_done_at": round(t_tlc, 1), "builds_done_at": round(t_build, 1),
+                         "replay_done_at": round(t_replay, 1)}, "replay_stats": dict(stats), "samples": samples,
     })
     rc = rep.finish()
     cov["known_findings"] = rep.kf_summary()
